@@ -26,7 +26,7 @@ CHECKS = {
         ref="DESIGN.md §3 C03",
     ),
     "C04": dict(
-        technique="static analysis on Python ast: index-variance (frame) typing of the lattice linear algebra — every axis is Cartesian, a lattice basis index or a lattice component index; .T swaps, inv swaps and flips, a contraction needs the same lattice with opposite variance — seeded from the repository's own conventions (x.cell, x.scaled_positions, supercell and primitive matrices); plus rejection-path rules (atom-count test before the maps are stored; species test on full symbols gathered through the mapping table); integrality typing of the trimming gate; rounding-before-integer-conversion def-use rule; symbolic evaluation of the trimming-frame expression on 3x3 symbolic entries with numpy broadcasting semantics (diag(frame).T = S); broadcast-alignment rule (per-row reductions combined with columns); after its own rules, the other properties' rules on the files this property is anchored in (anchor-scoped delegation, instances cached per tree digest); symbolic corner points of the surrounding frame; index-domain typing of the stored supercell/unit-cell maps (unit cell, surrounding cell, supercell, first images; composition and block-length rules); sublattice consistency of the pure translations",
+        technique="static analysis on Python ast: index-variance (frame) typing of the lattice linear algebra — every axis is Cartesian, a lattice basis index or a lattice component index; .T swaps, inv swaps and flips, a contraction needs the same lattice with opposite variance — seeded from the repository's own conventions (x.cell, x.scaled_positions, supercell and primitive matrices); plus rejection-path rules (atom-count test before the maps are stored; species test on full symbols gathered through the mapping table); integrality typing of the trimming gate; rounding-before-integer-conversion def-use rule; symbolic evaluation of the trimming-frame expression on 3x3 symbolic entries with numpy broadcasting semantics (diag(frame).T = S); broadcast-alignment rule (per-row reductions combined with columns); after its own rules, the other properties' rules on the files this property is anchored in (anchor-scoped delegation, instances cached per tree digest); symbolic corner points of the surrounding frame; index-domain typing of the stored supercell/unit-cell maps (unit cell, surrounding cell, supercell, first images; composition and block-length rules); sublattice consistency of the pure translations; species hand-over rule for cells built from cells",
         level="other",
         text="Decides the clause 'the supercell has lattice S^T L' and its siblings for the primitive cell and the shortest-vector basis change for every matrix at once: a transposed or wrong-lattice product is a type error unless the matrix is diagonal, which is exactly why tests on diagonal/symmetric matrices cannot see it. Also decides that cells which cannot be tiled are rejected before index maps are stored. Does not decide duplicate-free tiling or the group property of the translation permutations (runtime values). Also decides the trimming gate's integrality, that float change-of-basis matrices are rounded (not truncated) before they become integer, and that the old-style trimming frame divides row i of the supercell matrix by the frame length of row i.",
         note="Trusted: CPython ast; the seed types of cell/positions/matrices (documented conventions of PhonopyAtoms and the Supercell/Primitive docstrings). Unknown operands type to unknown and are never reported.",
@@ -47,7 +47,7 @@ CHECKS = {
         ref="DESIGN.md §3 C08",
     ),
     "C09": dict(
-        technique="static analysis on Python ast: structural proof obligations on the weight construction (open-term comparison), typestate over guard-correlated paths for the coupled symmetry flags, sibling keyword agreement for stored/iterated meshes, axis/weight abstract interpretation of nine mesh consumers (every sum/dot/einsum/loop accumulation over the irreducible q axis carries the weight; result homogeneous of degree 0 in the weights), pairwise precondition rule for the rotations (mesh numbers and half-shift flags per lattice-equivalent axis pair), guard-before-construction rule for consumers that need an unreduced mesh; finite-domain evaluation of the half-shift flag function; multiset typing of the weight construction; orientation typing of rotations; symbolic execution of the lattice-vector-equivalence function for a generic rotation with Boolean equivalence over sign-insensitive atoms; after its own rules, the other properties' rules on the files this property is anchored in (anchor-scoped delegation, instances cached per tree digest); global-normalisation rule for weighted means; binary-search rule; degree typing of the compiled consumers' C expressions in the q-point multiplicities (every store that reaches an output has degree 1); symbolic evaluation of the axis-pair compatibility flags in any spelling",
+        technique="static analysis on Python ast: structural proof obligations on the weight construction (open-term comparison), typestate over guard-correlated paths for the coupled symmetry flags, sibling keyword agreement for stored/iterated meshes, axis/weight abstract interpretation of nine mesh consumers (every sum/dot/einsum/loop accumulation over the irreducible q axis carries the weight; result homogeneous of degree 0 in the weights), pairwise precondition rule for the rotations (mesh numbers and half-shift flags per lattice-equivalent axis pair), guard-before-construction rule for consumers that need an unreduced mesh; finite-domain evaluation of the half-shift flag function; multiset typing of the weight construction; orientation typing of rotations; symbolic execution of the lattice-vector-equivalence function for a generic rotation with Boolean equivalence over sign-insensitive atoms; after its own rules, the other properties' rules on the files this property is anchored in (anchor-scoped delegation, instances cached per tree digest); global-normalisation rule for weighted means; binary-search rule; degree typing of the compiled consumers' C expressions in the q-point multiplicities (every store that reaches an output has degree 1); symbolic evaluation of the axis-pair compatibility flags in any spelling; half-shift rule for negated grid addresses (built-in examples); band-axis typing of the projected moments",
         level="other",
         text="Decides the clauses that make 'reduced sampling == full sampling' true by construction: weights are one count per grid point selected by the values of the same table; time reversal is never used where mesh symmetry is off (all constructor paths, all callers); both mesh flavours receive the same rotations and the symmetry library their documented orientation; every consumer (loop, dot, einsum or sum form) weights each q exactly once and divides by the weight sum; rotations are only used when mesh numbers and half-shifts agree on every pair of axes a rotation exchanges; eigenvector-dependent consumers refuse reduced meshes. Does not decide that spglib's mapping is a correct orbit decomposition.",
         note="Trusted: CPython ast, spglib's documented argument conventions.",
@@ -75,7 +75,7 @@ CHECKS = {
         ref="DESIGN.md §3 C12",
     ),
     "C13": dict(
-        technique="static analysis over the clang-14 JSON AST of c/*.c and the nanobind glue plus Python ast: cross-language ABI table (dtype/contiguity/arity by backward def-use with call context), swapped-argument detector, OpenMP data-sharing and mixed-radix subscript-injectivity analysis with callee write summaries, preprocessor-block and serial/parallel twin comparison, symbolic bounds of every write against malloc sizes / fixed extents / Python allocation shapes, perfect mixed-radix (dense row-major) form of every affine subscript, symbolic differentiation of the derivative kernel's helpers, constant and sibling-kernel agreement; the kernel closed-form rules of C02/C06/C08/C10/C11/C12 re-run for their instances in the compiled sources (every routine equals its reference formula); after its own rules, the other properties' rules on the files this property is anchored in (anchor-scoped delegation, instances cached per tree digest); path enumeration of the glue functions: optional arrays are NULL or the caller's data per flag combination",
+        technique="static analysis over the clang-14 JSON AST of c/*.c and the nanobind glue plus Python ast: cross-language ABI table (dtype/contiguity/arity by backward def-use with call context), swapped-argument detector, OpenMP data-sharing and mixed-radix subscript-injectivity analysis with callee write summaries, preprocessor-block and serial/parallel twin comparison, symbolic bounds of every write against malloc sizes / fixed extents / Python allocation shapes, perfect mixed-radix (dense row-major) form of every affine subscript, symbolic differentiation of the derivative kernel's helpers, constant and sibling-kernel agreement; the kernel closed-form rules of C02/C06/C08/C10/C11/C12 re-run for their instances in the compiled sources (every routine equals its reference formula); after its own rules, the other properties' rules on the files this property is anchored in (anchor-scoped delegation, instances cached per tree digest); path enumeration of the glue functions: optional arrays are NULL or the caller's data per flag combination; dtype inference of np.arange and of integer arrays combined with caller-supplied scalars; 1-D conditional copies",
         level="other",
         text="Decides the shape-of-code failure modes the property names: a kernel reinterpreting a buffer (dtype, layout, argument order, axis), a data race or order-dependent shared accumulation in any of the 11 parallel regions (for every schedule and thread count), code that exists only in the OpenMP build, a write past a temporary, a fixed-extent array or the array Python allocated, leaks, and diverging cross-language constants. Does not decide that loop-nest kernels compute the reference values (that is decided for the closed-form kernels under C10/C11 only). For the kernels that have a closed form (Fourier sum, inverse transform, NAC terms, thermal reduction, tetrahedron weights and DOS driver, derivative kernel) it also decides that the routine computes the reference formula, by the rules of the property that owns the formula.",
         note="Trusted: clang-14 JSON AST, the 30-line nanobind/omp.h stubs under /verif/stubs, sympy polynomial arithmetic. Assumptions (value ranges / injectivity of integer index maps supplied by the Python layer) are printed in the evidence. Unresolved Python arguments are listed as unknown, never reported.",
@@ -96,28 +96,28 @@ CHECKS = {
         ref="DESIGN.md §3 C15",
     ),
     "C16": dict(
-        technique="static analysis on Python ast: extraction of the yaml keys the dumpers can emit (string/f-string templates, holes resolved through call-site literals) and of the keys the loaders read (taint from self._yaml), set agreement for the fields the property names, legacy-key table; format-string tokenisation of the whitespace-parsed text writers; who-passes-what rule for save() and monotonicity of the settings save() adjusts; site typing of the BORN symmetry expansion; default-fill discipline of the loading helpers (guarded writes into loaded dictionaries, merge order); flow-sensitive provenance of the masses each cell receives before save(); after its own rules, the other properties' rules on the files this property is anchored in (anchor-scoped delegation, instances cached per tree digest); class-level mutable default rule; resolved-argument rule of load(); same-name forwarding; finite-domain evaluation of the dumper's dataset section over its two settings; truncating-mode rule for file writers",
+        technique="static analysis on Python ast: extraction of the yaml keys the dumpers can emit (string/f-string templates, holes resolved through call-site literals) and of the keys the loaders read (taint from self._yaml), set agreement for the fields the property names, legacy-key table; format-string tokenisation of the whitespace-parsed text writers; who-passes-what rule for save() and monotonicity of the settings save() adjusts; site typing of the BORN symmetry expansion; default-fill discipline of the loading helpers (guarded writes into loaded dictionaries, merge order); flow-sensitive provenance of the masses each cell receives before save(); after its own rules, the other properties' rules on the files this property is anchored in (anchor-scoped delegation, instances cached per tree digest); class-level mutable default rule; resolved-argument rule of load(); same-name forwarding; finite-domain evaluation of the dumper's dataset section over its two settings; truncating-mode rule for file writers; vocabulary agreement of the NAC method between dumper, loader and dispatch",
         level="other",
         text="Decides the necessary conditions of write->read identity that are properties of the pair of functions: both sides use the same key names for every field the property lists, every other key the loader reads is emitted or a documented legacy key, save() hands all ten pieces of state to the dumper and never switches off an item the caller asked for, numeric columns of FORCE_SETS/FORCE_CONSTANTS/BORN cannot fuse whatever the magnitude, and the 6-column split matches the writer. Does not decide numerical equality after a round trip or hdf5 contents. Also decides that the BORN expansion applies the operation in the direction representative -> atom and that a value read from a file is never replaced by a calculator default on loading.",
         note="Trusted: CPython ast; legacy keys are a frozen table with one reason each; the latent prefix mismatch of the v2.23 legacy parser is reported as a note, not a finding.",
         ref="DESIGN.md §3 C16",
     ),
     "C17": dict(
-        technique="static analysis on Python ast: dispatch-table extraction and exhaustiveness over the calculator registry with callee existence/arity resolution, constant folding of units.py against a dimensional model of each unit string (factor, NAC factor, lengths, forces, conversion table), atom-order domain typing (original / sorted-by-species / permutation / grouped counts) in the structure writers, reader-tuple vs consumer shape agreement, refusal-path rule for create_FORCE_SETS, index-domain typing (file-row order vs atom-id order) of the id-keyed LAMMPS force loader; order-domain typing of the species grouping primitive; lookup-index typing (an index found by searching Y subscripts only lists in Y's order) in the interface modules; broadcast-alignment rule in the structure writers; after its own rules, the other properties' rules on the files this property is anchored in (anchor-scoped delegation, instances cached per tree digest); Gram-matrix identities of the cell-from-parameters routine; provenance typing of the SIESTA species tables; symbolic evaluation of the lattice assembly of readers with per-vector scale factors (backward slice of cell=); lookup-list identity for writers with a species header and per-atom indices",
+        technique="static analysis on Python ast: dispatch-table extraction and exhaustiveness over the calculator registry with callee existence/arity resolution, constant folding of units.py against a dimensional model of each unit string (factor, NAC factor, lengths, forces, conversion table), atom-order domain typing (original / sorted-by-species / permutation / grouped counts) in the structure writers, reader-tuple vs consumer shape agreement, refusal-path rule for create_FORCE_SETS, index-domain typing (file-row order vs atom-id order) of the id-keyed LAMMPS force loader; order-domain typing of the species grouping primitive; lookup-index typing (an index found by searching Y subscripts only lists in Y's order) in the interface modules; broadcast-alignment rule in the structure writers; after its own rules, the other properties' rules on the files this property is anchored in (anchor-scoped delegation, instances cached per tree digest); Gram-matrix identities of the cell-from-parameters routine; provenance typing of the SIESTA species tables; symbolic evaluation of the lattice assembly of readers with per-vector scale factors (backward slice of cell=); lookup-list identity for writers with a species header and per-atom indices; class-level mutable defaults of the interface classes (shallow copies with nested mutable values)",
         level="other",
         text="Decides exhaustively over the 16 calculators: a handler exists with a compatible signature in all 7 dispatch functions; every unit number equals what its own unit strings imply (to 1e-9) so that one crystal gives the same THz in every unit system; no writer pairs a per-atom sequence in original order with one sorted by species (the defect only shows for interleaved input, which no sample file has); consumers index the reader's info tuple within its length; position mismatches refuse; force rows keyed by atom id are scattered to that id, never gathered through the ids, and incomplete id sets are refused. Does not decide textual round trips of particular files or lattice orientation conventions. Also decides, for the WIEN2k reader, that forces stored in case.scf order are addressed through an index looked up in a list of the same order.",
         note="Trusted: CPython ast; the per-atom meaning of two writer parameters (speci, conv_numbers) is a frozen table with reasons. Relative tolerance 1e-9 against constants folded from units.py itself.",
         ref="DESIGN.md §3 C17",
     ),
     "C18": dict(
-        technique="static analysis on Python ast: extraction of the seven tables of the settings pipeline (argparse dests, read_options forwarding with guard kind and value encoding, parse_conf handlers, set_parameter names, set_settings consumers, Settings keys/setters, settings reads in the scripts) and set-algebra / agreement rules between adjacent tables, including evaluation of every parser default against the guard under which the dest is forwarded; silent-default evaluation of all add_argument calls; sibling-construction rule for the command defaults handed to the configuration parser; after its own rules, the other properties' rules on the files this property is anchored in (anchor-scoped delegation, instances cached per tree digest); path evaluation of the primitive-matrix precedence; same-name forwarding; in-place self-aliasing rule (an element taken without a copy is not the operand of an in-place update that runs over it; built-in positive example); resolved-calculator rule for calculator-dependent defaults",
+        technique="static analysis on Python ast: extraction of the seven tables of the settings pipeline (argparse dests, read_options forwarding with guard kind and value encoding, parse_conf handlers, set_parameter names, set_settings consumers, Settings keys/setters, settings reads in the scripts) and set-algebra / agreement rules between adjacent tables, including evaluation of every parser default against the guard under which the dest is forwarded; silent-default evaluation of all add_argument calls; sibling-construction rule for the command defaults handed to the configuration parser; after its own rules, the other properties' rules on the files this property is anchored in (anchor-scoped delegation, instances cached per tree digest); path evaluation of the primitive-matrix precedence; same-name forwarding; in-place self-aliasing rule (an element taken without a copy is not the operand of an in-place update that runs over it; built-in positive example); resolved-calculator rule for calculator-dependent defaults; value-provenance rule of the configuration-file reader (no case folding of values)",
         level="other",
         text="Decides, exhaustively over all ~107 options and ~111 tags, the clause 'a setting has the same effect as tag or as option' as far as it is a property of the tables: every option reaches a handler, every parameter reaches an existing setter, every settings read in the scripts exists, the encoding stored for a key is the one its handler parses (including the polarity of negative flags), numeric options are forwarded under 'is not None' so that 0 means 0 on both routes, and an option that was not typed forwards nothing, so a configuration-file tag is not overridden by a parser default. Does not decide that output files equal library results. Also decides that the command defaults (phonopy-load: NAC on, symmetrised force constants) are in force whether or not a configuration file is read.",
         note="Trusted: CPython ast. Options handled directly by the scripts and namespace-only probes are frozen lists with one reason each. Documentation tags are reported as notes only.",
         ref="DESIGN.md §3 C18",
     ),
     "C19": dict(
-        technique="static analysis: source-to-sympy translation of the displacement prefactors with symbolic unit constants (identity with hbar/(2 m w)(1+2n) and k_B T/(m w^2)), equality of the Bose-Einstein expressions across modules, structural rules for the sqrt(2) / real-imaginary bookkeeping of conjugate q-point pairs, interprocedural frame typing of the sampler's position/phase set-up; interprocedural count of seeded random generators per run; open-term comparison of the sampler and thermal-displacement assembly sites in each function's own environment; symbolic evaluation of the CIF normalisation on 3x3 symbols; broadcast-alignment rule; after its own rules, the other properties' rules on the files this property is anchored in (anchor-scoped delegation, instances cached per tree digest); memoised-derived-state rule (with a built-in positive example); symbolic evaluation of the spectral reassembly D = V diag(w) V^H on complex symbols (loop, batched matmul and einsum spellings); axis typing of the D-type to C-type eigenvector conversion; fresh-write rule for result arrays",
+        technique="static analysis: source-to-sympy translation of the displacement prefactors with symbolic unit constants (identity with hbar/(2 m w)(1+2n) and k_B T/(m w^2)), equality of the Bose-Einstein expressions across modules, structural rules for the sqrt(2) / real-imaginary bookkeeping of conjugate q-point pairs, interprocedural frame typing of the sampler's position/phase set-up; interprocedural count of seeded random generators per run; open-term comparison of the sampler and thermal-displacement assembly sites in each function's own environment; symbolic evaluation of the CIF normalisation on 3x3 symbols; broadcast-alignment rule; after its own rules, the other properties' rules on the files this property is anchored in (anchor-scoped delegation, instances cached per tree digest); memoised-derived-state rule (with a built-in positive example); symbolic evaluation of the spectral reassembly D = V diag(w) V^H on complex symbols (loop, batched matmul and einsum spellings); axis typing of the D-type to C-type eigenvector conversion; fresh-write rule for result arrays; symbolic evaluation of the projected / unprojected displacement weights on complex symbols",
         level="other",
         text="Decides the prefactor and distribution clauses for all temperatures/frequencies at once: both modules' mean-square amplitude per mode is algebraically the harmonic canonical one (quantum and classical), the two Bose-Einstein factors are the same function, q = -q+G points carry no sqrt(2) and conjugate pairs do with Re - Im, the partition is computed once, and supercell positions enter the phases as primitive-cell components contracted with reduced q-points. Does not decide covariance equality of the sampler, positive semi-definiteness or the CIF transform.",
         note="Trusted: CPython ast, sympy, units.py constants as symbols. One known finding: populations are switched off for T <= 1 K in ThermalMotion.",
